@@ -550,9 +550,20 @@ fn main() {
             };
             for _ in 0..count {
                 let tl = rng.below(6) as usize;
-                let t: String = (0..tl).map(|_| *rng.pick(AL)).collect();
+                let mut t: String = (0..tl).map(|_| *rng.pick(AL)).collect();
                 let sl = 1 + rng.below(3) as usize;
-                let app: String = (0..sl).map(|_| *rng.pick(AL)).collect();
+                let mut app: String = (0..sl).map(|_| *rng.pick(AL)).collect();
+                if rng.chance(1, 6) {
+                    // the shape behind finding F16, also with more atoms behind it: the last atom is one normalization leaves alone
+                    // (its characters fold and normalize differently), the appended text continues it with a character
+                    // normalization would change - and may go on with a space and further atoms
+                    t = format!("{}{}", if rng.chance(1, 3) { "b " } else { "" }, *rng.pick(&["\u{2C65}", "b\u{2C65}", "\u{2C65}o", "\u{185}", "\u{17f}a"]));
+                    app = rng.pick(&['\u{e9}', '\u{e4}', '\u{c9}', '\u{f3}']).to_string();
+                    if rng.chance(1, 2) {
+                        app.push(' ');
+                        app.push_str(*rng.pick(&["a", "fo", "!k", "^b", "o$"]));
+                    }
+                }
                 let full = format!("{t}{app}");
                 n.pattern.reparse(0, &t, CaseMatching::Smart, Normalization::Smart, false);
                 n.tick(10);
